@@ -280,6 +280,12 @@ def specialise(fn_node, bindings, tables=None, rounds=6):
     """-> specialised copy of the FunctionDef (parent links: none)"""
     fn = _copy_tree(fn_node)
     tables = dict(tables or {})
+    # the expressions to bind are given as attribute chains (`self.grid.origin`): a local that merely names such a chain is written
+    # out first, so that the binding finds every read of it
+    from .simplify import AliasInline
+    al = AliasInline()
+    al.force = True
+    fn = al.visit(ast.Module(body=[fn], type_ignores=[])).body[0]
     for _ in range(rounds):
         # mark test positions (an and/or there is used for its truth value only)
         for n in ast.walk(fn):
